@@ -206,6 +206,7 @@ func roundA(rng *rand.Rand, sample bool) {
 func roundC(rng *rand.Rand) {
 	P, n := 2+rng.Intn(6), 5+rng.Intn(80)
 	s := storage.NewGenericStack[int](rng.Intn(4))
+	peekOwn := rng.Intn(3) != 0 // two rounds in three: every pusher peeks the id it was just given
 	idOf := make(map[int]uint64)
 	var mu2 sync.Mutex
 	var wg sync.WaitGroup
@@ -219,6 +220,16 @@ func roundC(rng *rand.Rand) {
 			for i := 0; i < n; i++ {
 				v := (p+1)*1000000 + i + 1
 				id := s.Push(v)
+				// nobody pops in this round: once Push has returned, the value is on the stack under that id,
+				// whatever other pushers are doing (ids may reach the heap out of order, leaving gaps for a moment)
+				if peekOwn {
+					func() {
+						defer guard("Peek")
+						if got, err := s.Peek(id); err != nil || got != v {
+							fail("monitor", fmt.Sprintf("push-only round: Peek(%d) right after Push returned that id gave (%d, %v), want (%d, nil)", id, got, err, v))
+						}
+					}()
+				}
 				mu2.Lock()
 				idOf[v] = id
 				mu2.Unlock()
@@ -340,7 +351,7 @@ func main() {
 	}
 	roundB(trials, 2)
 	roundB(trials/4, 4)
-	res.Scope = fmt.Sprintf("%d mixed rounds (1-6 pushers x 20-220 values, 1-6 poppers, three Peek/Len/Values readers) + %d push-only rounds (2-7 concurrent pushers) followed by an id-order check of Values() and of a sequential or multi-popper drain + %d two-popper and %d four-popper races on a one-element stack, under the race detector", rounds, 5*rounds, trials, trials/4)
+	res.Scope = fmt.Sprintf("%d mixed rounds (1-6 pushers x 20-220 values, 1-6 poppers, three Peek/Len/Values readers) + %d push-only rounds (2-7 concurrent pushers; in two of three every pusher peeks the id Push just returned and must get its value) followed by an id-order check of Values() and of a sequential or multi-popper drain + %d two-popper and %d four-popper races on a one-element stack, under the race detector", rounds, 5*rounds, trials, trials/4)
 	os.MkdirAll(*out, 0o755)
 	js, _ := json.MarshalIndent(res, "", " ")
 	os.WriteFile(filepath.Join(*out, "result.json"), js, 0o644)
